@@ -57,6 +57,8 @@ THEOREMS = [
     "Canopen.C11.wait_bootup_fails",
 ]
 FINGERPRINT = [
+    "canopen.node.base:BaseNode",
+    "canopen.node.remote:RemoteNode.__init__",
     "canopen.nmt:NmtBase.on_command",
     "canopen.nmt:NmtBase.send_command",
     "canopen.nmt:NmtBase.state",
@@ -253,18 +255,30 @@ def parse_arrivals(s):
     return [] if s == "-" else [unhx(x) for x in s.split("/")]
 
 
+def own_id(tok):
+    """`5`, or `o5` / `z5`: the node objects are created with node id None / 0 and take 5 from the dictionary"""
+    return int(tok.lstrip("oz"))
+
+
 def run_impl(op):
     a = op.split(" ")
     if a[0] != "hist" or len(a) < 3:
         return "bad-op"
-    own = int(a[1])
+    own = own_id(a[1])
     hbt = None if a[2] == "-" else int(a[2])
     sim = Sim()
     M, S = canopen.Network(), canopen.Network()
     sim.attach("M", M)
     sim.attach("S", S)
-    remote = canopen.RemoteNode(own, odm.ObjectDictionary())
-    local = canopen.LocalNode(own, make_od(hbt))
+    if a[1][0] in "oz":
+        given = None if a[1][0] == "o" else 0
+        rod, lod = odm.ObjectDictionary(), make_od(hbt)
+        rod.node_id = lod.node_id = own
+        remote = canopen.RemoteNode(given, rod)
+        local = canopen.LocalNode(given, lod)
+    else:
+        remote = canopen.RemoteNode(own, odm.ObjectDictionary())
+        local = canopen.LocalNode(own, make_od(hbt))
     M.add_node(remote)
     S.add_node(local)
     cb = []
@@ -602,7 +616,7 @@ def find_failures(op, out):
     a = op.split(" ")
     if a[0] != "hist":
         return []
-    own = int(a[1])
+    own = own_id(a[1])
     steps = a[3:]
     recs = parse_out(out)
     if recs is None or len(recs) != len(steps):
@@ -710,6 +724,17 @@ def cmd_sequences(symbols, maxlen):
 
 
 def gen_ops(tier, rng):
+    yield from gen_ops_main(tier, rng)
+    # node objects that take their id from the dictionary (node id None or 0 given): same behaviour
+    n = 0
+    for op in gen_ops_main("quick", rng):
+        n += 1
+        if n % (97 if tier == "quick" else 11) == 0:
+            a = op.split(" ")
+            yield " ".join([a[0], rng.choice("oz") + a[1]] + a[2:])
+
+
+def gen_ops_main(tier, rng):
     own = OWN_DEFAULT
     other = own + 1
     quick = tier == "quick"
